@@ -222,12 +222,23 @@ Definition set_transmission (p : snap_part) (s : S) : S * bool :=
   end.
 
 (* __loadDumpFile; any failure is swallowed by the bare except *)
+(* a received snapshot that is not ahead of the node's own position is not installed *)
+Definition snap_behind (s : S) : bool :=
+  match stored (sr (nd s)) with Some (Good sn) => eidx (s_e1 sn) <=? applied (nd s) | _ => false end.
+
+(* outcome of __loadDumpFile(clearJournal=True) *)
 Definition load_dump_ok (s : S) : bool :=
-  match stored (sr (nd s)) with Some (Good sn) => s_ver sn <=? self_ver (nd s) | _ => false end.
+  match stored (sr (nd s)) with
+  | Some (Good sn) => negb (eidx (s_e1 sn) <=? applied (nd s)) && (s_ver sn <=? self_ver (nd s))
+  | _ => false end.
 
 Definition load_dump (e : env) (clear : bool) (s : S) : S :=
   match stored (sr (nd s)) with
   | Some (Good sn) =>
+    if clear && (eidx (s_e1 sn) <=? applied (nd s)) then
+      (* what is stored now is the older snapshot: take a fresh one *)
+      upd (fun n => n <| force_compact := true |> <| last_ser_entry := None |>) s
+    else
     if self_ver (nd s) <? s_ver sn then s else
     let s := upd (fun n => n <| hist := s_hist sn |> <| enabled_ver := s_ver sn |>) s in
     (* a journal that reaches back beyond the dump is trimmed to the dump's position *)
@@ -486,6 +497,12 @@ Definition check_commands (e : env) (s : S) : S :=
   check_loop (Datatypes.S (length (queue (nd s)))) e (tnow s) s.
 
 (* ---- __tryLogCompaction ---- *)
+(* __clusterBeforeChange, over the entries behind the snapshot's position, latest first *)
+Definition cluster_before (n : node) (res : list entry) (cl : list nid) : list nid :=
+  fold_left (fun cl e => match membership_of (ecmd e) with
+                         | Some (a, x) => if self_is x n then cl else if a then sdel x cl else sadd x cl
+                         | None => cl end) res cl.
+
 Definition try_compact (e : env) (s : S) : S :=
   let cur := tnow s in
   let z := sr (nd s) in
@@ -509,6 +526,7 @@ Definition try_compact (e : env) (s : S) : S :=
         if opt_eqb (Some (eidx e0)) (last_ser_entry n) then upd (fun n => n <| last_ser_time := cur |>) s
         else
           let cl := match self n with Some i => sadd i (others n) | None => others n end in
+          let cl := cluster_before n (rev (get_entries (log n) (Some (applied n + 1)) None None)) cl in
           let sn := mkSnap (hist n) (enabled_ver n) e1 e0 cl (snaplen e) in
           upd (fun n => n <| sr := (sr n) <| cur_id := eidx e0 |> <| stored := Some (Good sn) |> <| pid := 1 |> |>) s
       | _ => upd (fun n => n <| last_ser_time := cur |>) s
@@ -693,6 +711,7 @@ Definition on_append_entries (e : env) (from : nid) (m : msg) (t c : N) (s : S) 
       if done && load_dump_ok s then
         let s := send_next_idx from None false true (load_dump e true s) in
         ae_commit c (Some (last_idx (log (nd s)))) s
+      else if done then ae_commit c None (load_dump e true s)
       else ae_commit c None s
     | _ => s
     end.
